@@ -214,6 +214,44 @@ func CheckIsGreaterThanHalfN(scalarFile string, n *big.Int) ([]Obligation, error
 		o.conclude(post)
 		return o.list, nil
 	}
+	if z == nil && pEqual(res.p, b.val.p) && b.node != nil {
+		// the other way round: result = final borrow of (n-1)/2 - nm = [(n-1)/2 < nm]
+		ch := chainEnding(b.node)
+		switch {
+		case !ch.clean:
+			o.add("half-order", "chain", stUndecided, ch.nodes[0].pos, ch.why)
+		case len(ch.nodes) != 4:
+			o.add("half-order", "chain", stViolated, ch.nodes[0].pos, fmt.Sprintf("the borrow chain deciding the result covers %d limbs instead of 4", len(ch.nodes)))
+		case !ch.telescoped():
+			o.add("half-order", "chain", stViolated, ch.nodes[0].pos, "the borrows of the chain are not passed from limb to limb")
+		default:
+			good := true
+			wl := limbsOf(h, 4)
+			for k, nd := range ch.nodes {
+				c, ok := nd.x.constant()
+				if !ok || c.Cmp(wl[k]) != 0 {
+					good = false
+					got := "not a constant"
+					if ok {
+						got = hex(c)
+					}
+					o.add("half-order", fmt.Sprintf("minuend-limb%d", k), stViolated, nd.pos, fmt.Sprintf("limb %d of the minuend is %s, expected limb %d of (n-1)/2 = %s", k, got, k, hex(wl[k])))
+				}
+			}
+			if rs := pSub(limbSum(ch.ys()), NM); !rs.isZero() {
+				good = false
+				d, _ := in.explain(rs)
+				o.add("half-order", "subtrahend", stViolated, ch.nodes[0].pos, "the subtrahend of the chain is not nm: "+d)
+			}
+			if good {
+				o.ok("half-order", "chain", fmt.Sprintf("4-limb borrow chain %s..%s computing (n-1)/2 - nm: all words in [0,W) => borrow = [(n-1)/2 < nm]", shortPos(ch.nodes[0].pos), shortPos(ch.last().pos)))
+				o.ok("half-order", "shape", "result = the final borrow = [nm > (n-1)/2] (in {0,1})")
+			}
+		}
+		o.ok("precondition", "", "nm = output of fiat.FromMontgomery (abstracted; 0 <= nm < n is CheckFiat's postcondition); the comparison itself is valid for every 4-limb nm")
+		o.conclude(post)
+		return o.list, nil
+	}
 	ch := borrowLT(in, o, "half-order", b, 4, NM, "nm", h, "(n-1)/2")
 	oneMinusB := pSub(pInt64(1), b.val.p)
 	switch {
@@ -312,6 +350,18 @@ func CheckMulGFlooredDiv(glvFile string, n *big.Int) ([]Obligation, error) {
 			resLimbs = p.arr.elems
 		}
 	}
+	// an operand may also arrive already converted, as a 4-limb array parameter; its range (< n, the FromMontgomery
+	// postcondition) is then the callers' obligation (rule C04-4/call-site of the framework checks every call site)
+	paramOperand := ""
+	if r.err == nil && len(from) == 1 {
+		for _, nm := range r.order {
+			if in4 := r.inputs[nm]; len(in4) == 4 {
+				from = append([]absCall{{name: "param " + nm, out: in4}}, from...)
+				paramOperand = nm
+				break
+			}
+		}
+	}
 	if r.err != nil || len(from) != 2 || len(from[0].out) != 4 || len(from[1].out) != 4 || len(resLimbs) != 4 {
 		if r.err == nil {
 			o.add("modelled", "", stUndecided, "", "expected two fiat.FromMontgomery calls and one uncheckedSetSaturated(&[4]uint64{...})")
@@ -322,6 +372,9 @@ func CheckMulGFlooredDiv(glvFile string, n *big.Int) ([]Obligation, error) {
 		return o.list, nil
 	}
 	a, b := from[0].out, from[1].out
+	if paramOperand != "" {
+		o.ok("operand-from-caller", paramOperand, "operand a is the limb-array parameter "+paramOperand+"; 0 <= a < n is required from every call site (it must pass a fiat.FromMontgomery output)")
+	}
 	AB := in.mul(limbSum(a), limbSum(b))
 	nm1 := new(big.Int).Sub(n, big1)
 	abMax := new(big.Int).Mul(nm1, nm1)
@@ -360,10 +413,12 @@ func CheckMulGFlooredDiv(glvFile string, n *big.Int) ([]Obligation, error) {
 	if len(cols) != 5 {
 		colOK = false
 	}
-	if colOK {
-		o.ok("column-weights", "", "the five discarded low words are the final values of columns 0..4 (weight = i+j of the products a[i]*b[j] they contain): "+strings.Join(ws, ", ")+"; each lies in [0,W) so L = sum col_k W^k < W^5")
-	} else if len(cols) > 0 || len(in.discards) == 0 {
-		o.add("column-weights", "", stViolated, "", fmt.Sprintf("discarded values have weights %v, expected exactly one each of W^0..W^4", ws))
+	colReport := func() {
+		if colOK {
+			o.ok("column-weights", "", "the five discarded low words are the final values of columns 0..4 (weight = i+j of the products a[i]*b[j] they contain): "+strings.Join(ws, ", ")+"; each lies in [0,W) so L = sum col_k W^k < W^5")
+		} else if len(cols) > 0 || len(in.discards) == 0 {
+			o.add("column-weights", "", stViolated, "", fmt.Sprintf("discarded values have weights %v, expected exactly one each of W^0..W^4", ws))
+		}
 	}
 
 	// ---- rounding structure: r0 = low(Add64(c6, t, 0)), r1 = c7 + carry
@@ -395,6 +450,43 @@ func CheckMulGFlooredDiv(glvFile string, n *big.Int) ([]Obligation, error) {
 		return o.list, nil
 	}
 	c5, rem = t.org.args[0], t.org.args[1]
+	if !colOK {
+		// the low columns need not be discarded with `_` (they may stay in an array that is never read): take, for each
+		// weight W^0..W^4, the one low word of a math/bits operation that nothing reads afterwards.  That the choice is
+		// right is decided by the schoolbook identity below (a*b = L + c5 W^5 + c6 W^6 + c7 W^7), not assumed.
+		byW := map[int][]*Val{}
+		for _, nd := range in.nodes {
+			v := nd.low
+			if v == nil || (v.used && !v.onlyStored) || v == c5 || v == c6 || v == r0 {
+				continue
+			}
+			if _, isC := v.constant(); isC {
+				continue
+			}
+			if w, ok := inputWeight(in, v, a, b); ok && w >= 0 && w <= 4 {
+				byW[w] = append(byW[w], v)
+			}
+		}
+		good := true
+		La := pZero()
+		var wsa []string
+		for k := 0; k < 5; k++ {
+			if len(byW[k]) != 1 || byW[k][0].lo.Sign() < 0 || byW[k][0].hi.Cmp(bigWm1) > 0 {
+				good = false
+				break
+			}
+			La = pAdd(La, pScale(byW[k][0].p, powW(k)))
+			wsa = append(wsa, fmt.Sprintf("W^%d@%s", k, strings.TrimPrefix(shortPos(byW[k][0].pos), filepath.Base(glvFile)+":")))
+		}
+		if good {
+			colOK, L, ws = true, La, wsa
+			o.ok("column-weights", "", "the low columns are kept but never read: for each weight W^0..W^4 exactly one unread low word of the product network ("+strings.Join(wsa, ", ")+"); each lies in [0,W) so L = sum col_k W^k < W^5")
+		} else {
+			colReport()
+		}
+	} else {
+		colReport()
+	}
 	if w5, ok := inputWeight(in, c5, a, b); !ok || w5 != 5 {
 		o.add("rounding-bit", "", stViolated, t.pos, fmt.Sprintf("the rounding bit computed at %s is taken from a value of weight W^%d (ok=%v), expected the final value of column 5 (bit 383 of the product)", t.pos, w5, ok))
 	} else if t.org.k != 63 || !t.isBool() {
